@@ -2,9 +2,12 @@
 Syntactic half: coq/Dml.v (builder-call layer + positional reader) on top of the shared coq/Query.v / coq/Terms.v,
 theorems in coq/props/C05.v.  Engine half (validated, not proved): harness/c05/engine.py applies pypika's statement and
 a reference effect written without pypika to two copies of a seeded SQLite database and compares every table."""
+import glob
 import json
+import os
 
 from harness import queries_family as qf
+from harness.lib import VERIF
 from harness.c05 import build as bd
 from harness.c05 import engine as en
 from harness.c05 import gen as gn
@@ -49,23 +52,23 @@ def _f(n):
     return ["field", n, None, None]
 
 
+def _corpus_files():
+    """witnesses kept under corpus/C05/*.json: one per open finding, plus minimised failures added later"""
+    out = []
+    for path in sorted(glob.glob(os.path.join(VERIF, "corpus", "C05", "*.json"))):
+        with open(path) as f:
+            data = json.load(f)
+        out.extend(data if isinstance(data, list) else [data])
+    return out
+
+
 def corpus():
     i = lambda n: ["vali", n, None]  # noqa
     sv = lambda s: ["v", ["s", s]]  # noqa
     iv = lambda n: ["v", ["i", n]]  # noqa
     B = lambda start, calls, spec, cls="SQLLiteQuery", db=1: {"kind": "b", "cls": cls, "start": start, "calls": calls, "spec": spec, "db": db}  # noqa
-    dm_set = ["arith", "sub", _f("b"), i(-1), None]
-    nc_set = ["neg", ["arith", "add", _f("a"), i(1), None]]
-    dm_where = ["basic", "eq", ["arith", "sub", _f("a"), i(-1), None], i(3), None]
     out = [
-        # ---- witnesses of the known findings (C02's rendering defects seen through C05's observable) ----
-        B(["update", "t"], [["set", ["s", "a"], ["t", dm_set]], ["where", ["basic", "eq", _f("id"), i(2), None]]],
-          {"kind": "update", "table": "t", "sets": [["a", ["t", dm_set]]], "where": ["basic", "eq", _f("id"), i(2), None]}),
-        B(["update", "t"], [["set", ["s", "b"], ["t", nc_set]]],
-          {"kind": "update", "table": "t", "sets": [["b", ["t", nc_set]]], "where": None}),
-        B(["delete", "t"], [["where", dm_where]], {"kind": "delete", "table": "t", "where": dm_where}),
-        B(["update", "t"], [["set", ["s", "c"], ["s", "z"]], ["where", dm_where]],
-          {"kind": "update", "table": "t", "sets": [["c", ["s", "z"]]], "where": dm_where}),
+        # (the witnesses of the known findings live in corpus/C05/known_findings.json)
         # ---- shapes that must stay right ----
         B(["into", "t"], [["columns", [["s", "a"], ["s", "b"]]], ["insert", [iv(1), sv("it's ),( x")]], ["insert", [["seq", "tuple", [["n"], ["b", True]]], ["seq", "tuple", [["f", "1.5"], ["i", -3]]]]]],
           {"kind": "insert", "table": "t", "cols": ["a", "b"], "rows": [[["i", 1], ["s", "it's ),( x"]], [["n"], ["b", True]], [["f", "1.5"], ["i", -3]]], "mode": "insert"}),
@@ -87,6 +90,8 @@ def corpus():
           {"kind": "delete", "table": "t", "where": ["basic", "gt", _f("a"), i(1), None], "limit": 1}),
         B(["into", "k"], [["columns", [["s", "a"], ["s", "b"]]], ["fromselect", "u", [_f("x"), _f("y")]], ["where", ["basic", "gt", _f("x"), i(1), None]], ["replace", []]],
           {"kind": "insert-select", "table": "k", "cols": ["a", "b"], "from": ["u"], "sels": [_f("x"), _f("y")], "where": ["basic", "gt", _f("x"), i(1), None], "mode": "replace"}),
+        B(["into", "t"], [["fromselect", "u", [_f("x")]], ["columns", [["s", "a"], ["s", "c"]]], ["fromselect", "k", [_f("c")]], ["where", ["basic", "lt", _f("x"), i(3), None]]],
+          {"kind": "insert-select", "table": "t", "cols": ["a", "c"], "from": ["u", "k"], "sels": [_f("x"), _f("c")], "where": ["basic", "lt", _f("x"), i(3), None], "mode": "insert"}),
         B(["update", "t"], [["set", ["s", "a"], ["b", True]], ["set", ["s", "b"], ["b", False]]],
           {"kind": "update", "table": "t", "sets": [["a", ["b", True]], ["b", ["b", False]]], "where": None}),
         B(["into", "t"], [["columns", [["s", "a"], ["s", "b"]]], ["insert", [["v", ["b", True]], ["v", ["b", False]]]]],
@@ -97,11 +102,11 @@ def corpus():
         c = g.malformed(k)
         c["cls"] = "SQLLiteQuery" if k != 4 else "Query"
         out.append(c)
-    return out
+    return _corpus_files() + out
 
 
 def gen_cases(rng, tier):
-    n = 520 if tier == "quick" else 9000
+    n = 1500 if tier == "quick" else 30000
     g = gn.G(rng)
     qg = qf.QGen(rng, p_alias=0.1, p_subq=0.0, hostile=0.3)
     out = []
